@@ -72,12 +72,26 @@ def unsat_family(ctx):
     return out
 
 
+def unrolled_family():
+    """one round of a yield-first loop written out (`yield_now(); if flag.load(o) == 1 { … }`), followed by a read of
+    ANOTHER location: judged against RC11, because the values the thread may read after the loop include stale ones
+    (a store is pruned from a load's candidates only if THIS thread saw it before its yield)"""
+    out = []
+    for so in ST:
+        for lo in LD:
+            out.append(f"cfg x=2 | T0: spawn 1; st 1 1 rlx; st 0 1 {so}; join 1 | T1: yield; ld 0 {lo}; ifeq 1 v:1 1; ld 1 rlx")
+            out.append(f"cfg x=2 | T0: spawn 1; yield; ld 0 {lo}; ifeq 1 v:1 1; ld 1 rlx; join 1 | T1: st 1 1 rlx; st 0 1 {so}")
+            out.append(f"cfg x=2 | T0: spawn 1; spawn 2; join 1; join 2 | T1: st 1 1 rlx; st 1 2 rlx; st 0 1 {so} | T2: ld 1 rlx; yield; ld 0 {lo}; ifeq 1 v:1 1; ld 1 rlx")
+    return out
+
+
 def run(ctx):
     ctx.prove(ctx.theorems())
     ctx.build_harness()
     sat = family(ctx)
     unsat = unsat_family(ctx)
-    programs = sat + unsat
+    unrolled = unrolled_family()
+    programs = sat + unsat + unrolled
     ctx.assumptions.append("reference for the exit outcomes: Spec/SC.lean with `await` as a blocking read (interleaving "
                            "outcomes only; weak-memory outcomes of the other loads are not required here)")
 
@@ -97,6 +111,7 @@ def run(ctx):
             miss = sorted(o for o in outs if o.startswith("ok") and o not in explored)
             if miss:
                 f.append((p, "missing", miss[0]))
+        f += ctx.rc11_check(unrolled, impl, lower=True, upper=False)
         for p in unsat:
             its, done = lvlib.iterations(impl.get(p, []))
             if not done or done[1] != "branchLimit":
